@@ -100,7 +100,7 @@ PROPS.update({
     "C07": _e2("TestVerifC07", "Generated read sequences, timeout modes, chunkings around the n-th byte, timer expiry as a scheduling choice (the real timer is fired), peer/user close, over generated schedules; outcome judged against the order of data, clock and close events; 'blocked for ever' is exact (reader parked at quiescence).",
                "scenario = 1-4 Reader calls (Next/Peek/Skip/ReadBinary/Slice/Read/ReadByte) x {no timeout, SetReadTimeout, future deadline, past deadline} x peer chunks around the needed bytes x peer close/shutdown x user close x 0-3 timer firings x init/NewFDConnection; non-trivial = during one call at least two of {data, clock, peer close, user close} happened, or a timed call follows a timed-out call; distinct = scenario + event sequence"),
     "C08": _e2("TestVerifC08", "Generated payloads relative to a tiny SO_SNDBUF, writer API mixes, peer drain scripts, write timeouts fired as scheduling choices, closes and a concurrent Flush or Write (which must be rejected without leaving a byte behind), over generated schedules; 'nil => kernel has every submitted byte' is checked with SIOCINQ on the peer end at the moment Flush returns.",
-               "scenario = 1-3 flushes (Malloc+Flush / Write / WriteBinary nocopy / mixed) of 1..12xSO_SNDBUF bytes x {no timeout, write timeout, deadline} x peer drain script x peer close x user close x concurrent pure Flush or concurrent Write of 1-300 own bytes x 0-2 timer firings; non-trivial = the flusher actually parked waiting for the poller; distinct = scenario + number of steps",
+               "scenario = 1-3 flushes (Malloc+Flush / Write / WriteBinary nocopy / mixed / many pieces / Append of a buffer built elsewhere / Malloc+MallocAck) of 1..12xSO_SNDBUF bytes x {no timeout, write timeout, deadline} x peer drain script x peer close x user close x concurrent pure Flush or concurrent Write of 1-300 own bytes x 0-2 timer firings; non-trivial = the flusher actually parked waiting for the poller; distinct = scenario + number of steps",
                quick=1500, thorough=30000),
     "C10": _e2("TestVerifC10", "Generated open/close/reopen histories with stale calls on the closed connection and generated schedules (including close/reopen between the poller's fetch and dispatch); judged only on the bystander: its data, its callbacks, its liveness.",
                "scenario = A (handler or not, 0-3 peer writes, closed by user or peer) x B opened after A's teardown (poller kicked so that the slot is spliced back: B re-uses A's slot and descriptor number) or before x 1-5 stale calls on A drawn from 18 Connection/Reader/Writer methods; non-trivial = B re-used A's slot and at least one stale call ran after B was open; distinct = scenario + event sequence"),
@@ -108,7 +108,7 @@ PROPS.update({
                "space = {user, peer, peer-then-user, detach} x {0, 5 bytes buffered} x {no, malloc'd unflushed output} x {no callbacks, OnRequest, OnConnect+OnRequest} x 38 Connection/Reader/Writer calls x {once, twice} x {no read timeout, a read timeout set and one Reader call that really waited before the close}; every point is non-trivial (the method runs after the close reached quiescence); distinct = point of the space",
                quick=600, thorough=4000),
     "C04": dict(_e2("TestVerifC04", "Two complementary generated searches against one oracle, the position-keyed byte stream: (E2) both directions of a connection on a socketpair with a tiny send buffer under generated schedules, which reaches the flusher/poller and reader/poller hand-off windows exactly; (E3) generated bulk workloads on real threads over TCP4/TCP6/unix with generated socket buffer sizes, writer and reader API mixes, where the kernel chooses the partial-write boundaries.",
-               "E2: flush scenario (1-3 flushes of 1..12xSO_SNDBUF through Malloc/Write/WriteBinary/mixed, peer drain script, peer close) or read scenario (1-4 Reader calls up to 9000 bytes, peer chunks, peer close), generated schedule; non-trivial = the flusher parked waiting for the poller / a Reader call parked waiting for a delivery. E3: 1-4 connections x {tcp4,tcp6,unix} x payload up to 1 MiB (8 MiB thorough) each way x write chunking and API mix x reader op mix (Next, Peek+Skip, ReadBinary, Slice, Read, ReadString, Peek+ReadByte+Peek+Skip, ReadByte runs) x one-step handlers x close right after the last Flush x SO_SNDBUF/SO_RCVBUF x reader pace; non-trivial = a payload of at least 4x the send buffer or above 64 KiB. distinct = scenario (+ event sequence for E2)"),
+               "E2: flush scenario (1-3 flushes of 1..12xSO_SNDBUF through Malloc/Write/WriteBinary/mixed/pieces/Append/Malloc+MallocAck, peer drain script, peer close) or read scenario (1-4 Reader calls up to 9000 bytes, peer chunks, peer close), generated schedule; non-trivial = the flusher parked waiting for the poller / a Reader call parked waiting for a delivery. E3: 1-4 connections x {tcp4,tcp6,unix} x payload up to 1 MiB (8 MiB thorough) each way x write chunking and API mix x reader op mix (Next, Peek+Skip, ReadBinary, Slice, Read, ReadString, Peek+ReadByte+Peek+Skip, ReadByte runs) x one-step handlers x close right after the last Flush x SO_SNDBUF/SO_RCVBUF x reader pace; non-trivial = a payload of at least 4x the send buffer or above 64 KiB. distinct = scenario (+ event sequence for E2)"),
         engine="E2 simworld + E3 livenet",
         technique="generated schedule search over the hand-off windows (E2) plus generated bulk workloads on real sockets (E3), both against a position-keyed stream oracle",
         parts=[
